@@ -1,16 +1,125 @@
 (* C18 — mapset.Set operations agree with mathematical sets, including nil and empty sets.
-   Only statements, each closed by [exact] of a lemma proved in Mapset/MapsetProofs.v.
-   T is any type with a decidable equality [eqb]; a map value is [option (list T)] (None = nil);
-   [wf m] = its keys are distinct; [has m x] = x is a key of m; [ord] is the iteration order
-   chosen by the runtime (any value: a wrong one yields BadOrder, a legal one never does). *)
+   Only statements, each closed by [exact] of a lemma proved in Mapset/MapsetProofs*.v.
+
+   Reading guide.  T is any type with a decidable equality [eqb] (hypothesis: eqb x y = true <->
+   x = y), [zero] the zero value of T.  A map value is [gomap T] = option (list T): None is the nil
+   map, Some l an allocated map with keys l; [wf m] = the keys are distinct; [has m x] = x is a
+   key.  [ord] arguments are the iteration orders chosen by the Go runtime: ANY list may be handed
+   in; the model answers BadOrder iff the list is not a duplicate-free enumeration of the keys of
+   the map being ranged over (C18_valid_order_iff), so every statement below holds for every legal
+   order.  [run] executes a history over named set variables (all nil at first); [srun] is the
+   reference on mathematical sets (Mapset/MapsetSpec.v, meaning in C18_spec_meaning).  [R st sst]
+   = every variable has distinct keys which are exactly the members of its reference set.
+   [out_ok] = same booleans/ints/elements; a returned set has exactly the reference members; a
+   returned slice is the given prefix followed by each member exactly once. *)
 From Coq Require Import ZArith List Bool Permutation.
 Import ListNotations.
-From Mds Require Import Mapset.MapsetModel Mapset.MapsetProofs.
+From Mds Require Import Mapset.MapsetModel Mapset.MapsetSpec Mapset.MapsetProofs Mapset.MapsetProofsMut Mapset.MapsetProofsHist.
 Local Open Scope Z_scope.
 
-Definition Zspec : forall x y, Z.eqb x y = true <-> x = y := Z.eqb_eq.
+(* ---- histories *)
 
-(* Intersects returns the set-theoretic answer for every pair of operands and every order. *)
+(* FULL STATEMENT: after any sequence of operations (Add, AddAll, Remove, RemoveAll, Pop, Clear,
+   and also New, NewSize, Clone, Intersect, Range, Keys, Values, nil assignment, and all the
+   reads) on any number of variables, started in any state related to the reference, under any
+   legal iteration orders: no panic, every output is the reference's, and every variable still
+   holds exactly its reference set. *)
+Theorem C18_history : forall (T : Type) (eqb : T -> T -> bool) (zero : T), (forall x y, eqb x y = true <-> x = y) ->
+  forall (ops : list (op T)) (st : store T) (sst : sstore T), R T st sst ->
+  ~ In (RBadOrder T) (snd (run T eqb zero st ops)) ->
+  R T (fst (run T eqb zero st ops)) (fst (srun T eqb zero sst ops)) /\
+  Forall2 (out_ok T) (snd (run T eqb zero st ops)) (snd (srun T eqb zero sst ops)).
+Proof. exact history_refines. Qed.
+Print Assumptions C18_history.
+
+Definition ex_ops : list (op Z) :=
+  [OAdd Z 0 [3;1;3]; ONew Z 1 [1;2]; OAddAll Z 2 1 [2;1]; OAddAll Z 0 1 [1;2]; OPop Z 0 [1;3;2]; ORemoveAll Z 0 1 [2;1];
+   OIsSubset Z 0 1 [3]; OIntersects Z 1 0 [3]; OEquals Z 2 1 [1;2]; OIntersect Z 3 [0%nat;1%nat;2%nat] [3]; OSlice Z 1 [2;1]; OClear Z 1;
+   OHasAll Z 1 []; OHasAny Z 1 [1]; OPop Z 1 []; OLen Z 0; OAppend Z 0 (Some [9]) [3]].
+Example C18_history_ex :
+  snd (run Z Z.eqb 0 (store0 Z) ex_ops) =
+  [RSet Z (Some [3;1]); RSet Z (Some [1;2]); RSet Z (Some [1;2]); RSet Z (Some [3;1;2]); RElem Z 1; RSet Z (Some [3]);
+   RBool Z false; RBool Z false; RBool Z true; RSet Z (Some []); RSlice Z (Some [2;1]); RSet Z (Some []);
+   RBool Z true; RBool Z false; RElem Z 0; RInt Z 1; RSlice Z (Some [9;3])]
+  /\ ~ In (RBadOrder Z) (snd (run Z Z.eqb 0 (store0 Z) ex_ops)).
+Proof. vm_compute. split; [reflexivity|]. intuition discriminate. Qed.
+
+(* the same from the initial state: all variables nil, all reference sets empty *)
+Theorem C18_history_from_nil : forall (T : Type) (eqb : T -> T -> bool) (zero : T), (forall x y, eqb x y = true <-> x = y) ->
+  forall ops : list (op T),
+  ~ In (RBadOrder T) (snd (run T eqb zero (store0 T) ops)) ->
+  R T (fst (run T eqb zero (store0 T) ops)) (fst (srun T eqb zero (sstore0 T) ops)) /\
+  Forall2 (out_ok T) (snd (run T eqb zero (store0 T) ops)) (snd (srun T eqb zero (sstore0 T) ops)).
+Proof. exact history_from_nil. Qed.
+Print Assumptions C18_history_from_nil.
+Example C18_history_from_nil_ex :
+  snd (srun Z Z.eqb 0 (sstore0 Z) ex_ops) =
+  [SSet Z [1;3]; SSet Z [2;1]; SSet Z [1;2]; SSet Z [2;1;3]; SElem Z 1; SSet Z [3];
+   SBool Z false; SBool Z false; SBool Z true; SSet Z []; SList Z [] [2;1]; SSet Z [];
+   SBool Z true; SBool Z false; SElem Z 0; SInt Z 1; SList Z [9] [3]].
+Proof. vm_compute. reflexivity. Qed.
+
+(* membership, Len and IsEmpty of a related variable are those of its reference set *)
+Theorem C18_reads : forall (T : Type) (eqb : T -> T -> bool), (forall x y, eqb x y = true <-> x = y) ->
+  forall (st : store T) (sst : sstore T), R T st sst -> forall i,
+  (forall x, Has T eqb (st i) x = s_mem T eqb x (sst i)) /\
+  Len T (st i) = s_card T (sst i) /\
+  IsEmpty T (st i) = Z.eqb (s_card T (sst i)) 0 /\
+  NoDup (m_keys T (st i)) /\ Permutation (m_keys T (st i)) (sst i).
+Proof. exact R_reads. Qed.
+Print Assumptions C18_reads.
+Example C18_reads_ex : Has Z Z.eqb (Some [3;1]) 1 = true /\ Len Z (Some [3;1]) = 2 /\ IsEmpty Z None = true /\ Len Z None = 0.
+Proof. vm_compute. auto. Qed.
+
+(* the hypothesis on orders is not a restriction on histories: in every reachable state every
+   operation has a legal order (the keys themselves), and it is not rejected *)
+Theorem C18_legal_order_exists : forall (T : Type) (eqb : T -> T -> bool) (zero : T), (forall x y, eqb x y = true <-> x = y) ->
+  forall (st : store T) (sst : sstore T) (o : op T), R T st sst ->
+  snd (step T eqb zero st (canonical_order T st o)) <> RBadOrder T.
+Proof. exact legal_order_exists. Qed.
+Print Assumptions C18_legal_order_exists.
+Example C18_legal_order_exists_ex :
+  canonical_order Z (upd Z (store0 Z) 1 (Some [4;2])) (OPop Z 1 []) = OPop Z 1 [4;2].
+Proof. reflexivity. Qed.
+
+(* an order is accepted iff it is a permutation of the keys *)
+Theorem C18_valid_order_iff : forall (T : Type) (eqb : T -> T -> bool), (forall x y, eqb x y = true <-> x = y) ->
+  forall (ord : list T) (m : gomap T), wf T m -> (valid_order T eqb ord m = true <-> Permutation ord (m_keys T m)).
+Proof. exact valid_order_iff. Qed.
+Print Assumptions C18_valid_order_iff.
+Example C18_valid_order_iff_ex :
+  valid_order Z Z.eqb [2;3;1] (Some [1;2;3]) = true /\ valid_order Z Z.eqb [2;2;1] (Some [1;2;3]) = false
+  /\ valid_order Z Z.eqb [] None = true.
+Proof. vm_compute. auto. Qed.
+
+(* the reference operations are the set-theoretic ones *)
+Theorem C18_spec_meaning : forall (T : Type) (eqb : T -> T -> bool), (forall x y, eqb x y = true <-> x = y) ->
+  forall (A B : rset T) (items : list T) (x : T),
+  (s_mem T eqb x A = true <-> In x A) /\
+  (In x (s_adds T eqb A items) <-> In x A \/ In x items) /\
+  (In x (s_dels T eqb A items) <-> In x A /\ ~ In x items) /\
+  (In x (s_inter T eqb A B) <-> In x A /\ In x B) /\
+  (s_subset T eqb A B = true <-> forall y, In y A -> In y B) /\
+  (s_equal T eqb A B = true <-> forall y, In y A <-> In y B) /\
+  (s_meets T eqb A B = true <-> exists y, In y A /\ In y B) /\
+  (NoDup A -> NoDup (s_adds T eqb A items) /\ NoDup (s_dels T eqb A items) /\ NoDup (s_inter T eqb A B)).
+Proof. exact spec_meaning. Qed.
+Print Assumptions C18_spec_meaning.
+Example C18_spec_meaning_ex :
+  s_adds Z Z.eqb [1;2] [2;3] = [3;1;2] /\ s_dels Z Z.eqb [1;2;3] [2;5] = [1;3] /\ s_inter Z Z.eqb [1;2;3] [3;1] = [1;3].
+Proof. vm_compute. auto. Qed.
+
+Theorem C18_spec_inter_all_meaning : forall (T : Type) (eqb : T -> T -> bool), (forall x y, eqb x y = true <-> x = y) ->
+  forall (As : list (rset T)) (x : T), Forall (@NoDup T) As ->
+  (In x (s_inter_all T eqb As) <-> As <> [] /\ forall B, In B As -> In x B) /\ NoDup (s_inter_all T eqb As).
+Proof. exact spec_inter_all_meaning. Qed.
+Print Assumptions C18_spec_inter_all_meaning.
+Example C18_spec_inter_all_meaning_ex :
+  s_inter_all Z Z.eqb [[1;2;3];[3;1];[1;5]] = [1] /\ s_inter_all Z Z.eqb [] = [].
+Proof. vm_compute. auto. Qed.
+
+(* ---- the predicates, directly in terms of membership: every pair of operands, every order *)
+
 Theorem C18_intersects : forall (T : Type) (eqb : T -> T -> bool), (forall x y, eqb x y = true <-> x = y) ->
   forall (s t : gomap T) (ord : list T), wf T s -> wf T t ->
   match Intersects T eqb s t ord with
@@ -68,3 +177,97 @@ Print Assumptions C18_hasany.
 Example C18_hasany_ex :
   HasAny Z Z.eqb None [1] = false /\ HasAny Z Z.eqb (Some [1;2]) [] = false /\ HasAny Z Z.eqb (Some [1;2]) [3;2] = true.
 Proof. vm_compute. auto. Qed.
+
+(* Intersect of any number of operands: a non-nil set of exactly the common elements *)
+Theorem C18_intersect : forall (T : Type) (eqb : T -> T -> bool), (forall x y, eqb x y = true <-> x = y) ->
+  forall (ss : list (gomap T)) (ord : list T), Forall (wf T) ss ->
+  match Intersect T eqb ss ord with
+  | Ok r => exists l, r = Some l /\ NoDup l /\ forall y, In y l <-> (ss <> [] /\ forall s, In s ss -> has T s y)
+  | BadOrder => exists min, intersect_operand T ss = Ok min /\ valid_order T eqb ord min = false
+  | _ => False
+  end.
+Proof. exact Intersect_spec. Qed.
+Print Assumptions C18_intersect.
+Example C18_intersect_ex :
+  Intersect Z Z.eqb [Some [1;2;3]; Some [3;1]; Some [4;1;3]] [1;3] = Ok (Some [1;3]) /\ Intersect Z Z.eqb [] [] = Ok (Some [])
+  /\ Intersect Z Z.eqb [Some [1;2]; None] [] = Ok (Some []).
+Proof. vm_compute. auto. Qed.
+
+(* ---- nil-ness, Pop, Slice/Append, frame *)
+
+(* New, NewSize, Clone, Intersect, Range, Keys, Values (and Add, AddAll) yield a non-nil set *)
+Theorem C18_constructors_nonnil : forall (T : Type) (eqb : T -> T -> bool) (zero : T), (forall x y, eqb x y = true <-> x = y) ->
+  forall (st : store T) (sst : sstore T) (o : op T), R T st sst -> constructs T o = true ->
+  match snd (step T eqb zero st o) with
+  | RSet _ m => m <> None
+  | RBadOrder _ => True
+  | _ => False
+  end.
+Proof. exact constructors_nonnil. Qed.
+Print Assumptions C18_constructors_nonnil.
+Example C18_constructors_nonnil_ex :
+  snd (step Z Z.eqb 0 (store0 Z) (OClone Z 1 0)) = RSet Z (Some []) /\ snd (step Z Z.eqb 0 (store0 Z) (OAddAll Z 1 0 [])) = RSet Z (Some [])
+  /\ snd (step Z Z.eqb 0 (store0 Z) (OIntersect Z 1 [0%nat;0%nat] [])) = RSet Z (Some []) /\ snd (step Z Z.eqb 0 (store0 Z) (OKeys Z 1 [])) = RSet Z (Some []).
+Proof. vm_compute. auto. Qed.
+
+(* Pop: nothing changes and the zero value comes back on an empty or nil set; otherwise exactly
+   one member is removed, and it is the one returned *)
+Theorem C18_pop : forall (T : Type) (eqb : T -> T -> bool) (zero : T), (forall x y, eqb x y = true <-> x = y) ->
+  forall (s : gomap T) (ord : list T), wf T s ->
+  match Pop T eqb zero s ord with
+  | Ok (s', x) =>
+      ((m_keys T s = [] /\ s' = s /\ x = zero /\ ord = []) \/
+       (has T s x /\ (forall y, has T s' y <-> has T s y /\ y <> x) /\ Len T s' = Len T s - 1 /\ exists r, ord = x :: r))
+      /\ wf T s' /\ (s' = None <-> s = None)
+  | BadOrder => valid_order T eqb ord s = false
+  | _ => False
+  end.
+Proof. exact Pop_spec. Qed.
+Print Assumptions C18_pop.
+Example C18_pop_ex :
+  Pop Z Z.eqb 0 (Some [1;2;3]) [2;3;1] = Ok (Some [1;3], 2) /\ Pop Z Z.eqb 0 None [] = Ok (None, 0) /\ Pop Z Z.eqb 0 (Some []) [] = Ok (Some [], 0).
+Proof. vm_compute. auto. Qed.
+
+Theorem C18_slice : forall (T : Type) (eqb : T -> T -> bool) (zero : T), (forall x y, eqb x y = true <-> x = y) ->
+  forall (s : gomap T) (ord : list T), wf T s ->
+  match Slice T eqb zero s ord with
+  | Ok r => Permutation (sl_elems T r) (m_keys T s) /\ NoDup (sl_elems T r) /\ (r = None <-> m_keys T s = [])
+  | BadOrder => valid_order T eqb ord s = false
+  | _ => False
+  end.
+Proof. exact Slice_spec. Qed.
+Print Assumptions C18_slice.
+Example C18_slice_ex : Slice Z Z.eqb 0 (Some [1;2;3]) [3;1;2] = Ok (Some [3;1;2]) /\ Slice Z Z.eqb 0 (Some []) [] = Ok None.
+Proof. vm_compute. auto. Qed.
+
+Theorem C18_append : forall (T : Type) (eqb : T -> T -> bool), (forall x y, eqb x y = true <-> x = y) ->
+  forall (s : gomap T) (vs : goslice T) (ord : list T), wf T s ->
+  match Append T eqb s vs ord with
+  | Ok r => exists l, sl_elems T r = sl_elems T vs ++ l /\ Permutation l (m_keys T s) /\ (m_keys T s = [] -> r = vs)
+  | BadOrder => valid_order T eqb ord s = false
+  | _ => False
+  end.
+Proof. exact Append_spec. Qed.
+Print Assumptions C18_append.
+Example C18_append_ex : Append Z Z.eqb (Some [1;2]) (Some [7;7]) [2;1] = Ok (Some [7;7;2;1]) /\ Append Z Z.eqb None None [] = Ok None.
+Proof. vm_compute. auto. Qed.
+
+(* what must not change: an operation leaves every variable other than its receiver/destination
+   alone (its arguments included), and the reads leave all of them alone *)
+Theorem C18_frame : forall (T : Type) (eqb : T -> T -> bool) (zero : T) (st : store T) (o : op T) (k : nat),
+  (k <> target T o \/ observer T o = true) -> fst (step T eqb zero st o) k = st k.
+Proof. exact step_frame. Qed.
+Print Assumptions C18_frame.
+Example C18_frame_ex :
+  let st := upd Z (upd Z (store0 Z) 0 (Some [1;2])) 1 (Some [2;3]) in
+  fst (step Z Z.eqb 0 st (ORemoveAll Z 0 1 [3;2])) 1%nat = Some [2;3] /\ fst (step Z Z.eqb 0 st (ORemoveAll Z 0 1 [3;2])) 0%nat = Some [1].
+Proof. vm_compute. auto. Qed.
+
+(* an illegal order is reported without touching any variable *)
+Theorem C18_badorder_no_effect : forall (T : Type) (eqb : T -> T -> bool) (zero : T) (st : store T) (o : op T),
+  snd (step T eqb zero st o) = RBadOrder T -> fst (step T eqb zero st o) = st.
+Proof. exact step_badorder_state. Qed.
+Print Assumptions C18_badorder_no_effect.
+Example C18_badorder_no_effect_ex :
+  snd (step Z Z.eqb 0 (upd Z (store0 Z) 0 (Some [1;2])) (OPop Z 0 [5;1])) = RBadOrder Z.
+Proof. vm_compute. reflexivity. Qed.
